@@ -27,7 +27,7 @@ def run(ctx):
     # lengths of variable-length arrays whose size in bytes wraps around the word: the run must end in stack_overflow, not carry on
     # with an array that owns no memory
     wrap = []
-    for w in (3, 4, 8):
+    for w in (2, 3, 4, 8):
         wrap += [('lw%d_%d' % (w, i), src, a, w, 64, False, 200000)
                  for i, (src, a, tag) in enumerate(gen_special.fault_programs(ctx.rng, w, 1)) if tag.startswith('two_lengthwrap')]
     suites.differential(ctx, wrap, None, label='length-wrap')
